@@ -17,9 +17,12 @@ CONSTANTS
   ClaimLocal = FALSE
   SameAs = {"a2"}
   Reclaim = TRUE
+  ResetOnFail = FALSE
+  CanTick = FALSE
+  ShortClaim = FALSE
   Emit = FALSE
 INIT Init
 NEXT Next
 VIEW view
-INVARIANTS TypeOK LockOK AtMostOneSuccess AtMostOneMapping SuccessWasValid FailedLeavesNone FieldsOK
+INVARIANTS TypeOK NoActivationAfterDeath LockOK AtMostOneSuccess AtMostOneMapping SuccessWasValid FailedLeavesNone FieldsOK
 CHECK_DEADLOCK FALSE
